@@ -6,7 +6,7 @@
    Generated/C15StatusUtil.v dumped by running NewStatusFromMsgAndHTTPCode on its whole domain).
    No proofs in this file. *)
 From Verif Require Import Common.Base.
-From Verif Require Import Generated.C15Recv Generated.C15GrpcExp Generated.C15HttpExp Generated.C15StatusUtil.
+From Verif Require Import Generated.C15Recv Generated.C15GrpcExp Generated.C15HttpExp Generated.C15StatusUtil Generated.C15Shutdown.
 Local Open Scope Z_scope.
 
 (* ------------------------------------------------------------------------------------------
@@ -148,6 +148,12 @@ Definition error_handler (ct : ctype) (st : Z) : response :=
    Content-Encoding, or a decoder that fails when created: errorHandler 400) -> mux ->
    otlphttp.go handleX: readContentType (method, then media type) -> readAndCloseBody (a body
    that fails to decompress while being read fails here) -> unmarshal -> Export -> writeError/200 *)
+(* otlphttp.go: readContentType — 405 for a method other than POST (checked first), 415 for a media type that
+   is neither OTLP one, else the encoder: 0 = pbEncoder, 1 = jsEncoder *)
+Definition read_content_type (post : bool) (ct : ctype) : Z :=
+  if negb post then 405
+  else match ct with CtPb => 0 | CtJson => 1 | CtOther => 415 end.
+
 Definition recv_http (rq : request) (o : outcome) : bool * response :=
   match r_auth rq with
   | AuthFail => (false, error_handler (r_ct rq) 401)
@@ -155,10 +161,10 @@ Definition recv_http (rq : request) (o : outcome) : bool * response :=
     match r_enc rq with
     | EncUnsupported | EncBadEager => (false, error_handler (r_ct rq) 400)
     | _ =>
-      if negb (r_post rq) then (false, mkResp 405 None None)
-      else match r_ct rq with
-           | CtOther => (false, mkResp 415 None None)
-           | _ =>
+      match read_content_type (r_post rq) (r_ct rq) with
+      | 405 => (false, mkResp 405 None None)      (* handleUnmatchedMethod: text/plain body *)
+      | 415 => (false, mkResp 415 None None)      (* handleUnmatchedContentType: text/plain body *)
+      | _ =>
              match r_enc rq, r_body rq with
              | EncBadLazy, _ => (false, write_error None 400)
              | _, None => (false, write_error None 400)
@@ -230,28 +236,60 @@ Definition hop (t : transport) (a : auth) (items : N) (o : outcome) : hop_result
   end.
 
 (* ------------------------------------------------------------------------------------------
-   A hop relative to the receiver's Shutdown (receiver/otlpreceiver/otlp.go Shutdown):
-   serverHTTP.Shutdown(ctx) and serverGRPC.GracefulStop() both stop accepting NEW connections and
-   then WAIT for the requests already being handled, whose responses are still delivered.
+   A hop relative to the receiver's Shutdown (receiver/otlpreceiver/otlp.go Shutdown).
+   WHICH stop call the receiver makes on each of its two servers is read from the current source on
+   every run (Generated/C15Shutdown.v, a scan of the body of Shutdown by props/C15/check.py):
+   0 = http.Server.Shutdown, 1 = http.Server.Close, 2 = grpc.Server.GracefulStop,
+   3 = grpc.Server.Stop.  WHAT such a call does with the requests being handled is library
+   behaviour: a function [lib_drains : stop_call -> bool] (does the call wait for the handlers that
+   are running and still deliver their responses?).  The documented semantics — net/http: Shutdown
+   "gracefully shuts down the server without interrupting any active connections", Close "immediately
+   closes all ... connections"; grpc-go: GracefulStop "blocks until all the pending RPCs are finished",
+   Stop "closes all open connections" — is [documented_lib]; the theorems take it as a hypothesis on
+   the calls actually made, and the hop harness validates it on the implementation (kind 10).
    - Running: no shutdown involved;
-   - InFlightAtShutdown: the export is inside the next consumer when Shutdown starts; the consumer
-     answers afterwards.  The request is drained: same result as Running;
-   - AfterShutdown: the export is sent after Shutdown returned: the connection is refused, nothing
-     reaches the consumer; the gRPC client reports Unavailable (processError: retryable), the HTTP
-     exporter's client.Do fails ("failed to make an HTTP request", an error that is neither permanent
-     nor a throttle: retryable, no gRPC status attached).
+   - InFlightAtShutdown: the export is inside the next consumer when Shutdown starts and the consumer
+     answers afterwards: drained = same result as Running; cut = the consumer still runs to its end,
+     but the sender only sees the connection die;
+   - AfterShutdown: the export is sent after Shutdown returned: the connection is refused.
+   A dead / refused connection on the sending side: the gRPC client reports Unavailable (processError:
+   retryable), the HTTP exporter's client.Do fails ("failed to make an HTTP request", an error that is
+   neither permanent nor a throttle: retryable, no gRPC status attached).
    ------------------------------------------------------------------------------------------ *)
 Inductive phase := Running | InFlightAtShutdown | AfterShutdown.
+Inductive stop_call := HttpShutdown | HttpClose | GrpcGracefulStop | GrpcStop | NoStopCall.
 
-Definition hop_at (ph : phase) (t : transport) (a : auth) (items : N) (o : outcome) : hop_result :=
-  match ph with
-  | AfterShutdown =>
-      match t with
-      | Grpc => mkHop false (process_error (Some (codes_Unavailable, None))) (Some codes_Unavailable)
-      | _ => mkHop false Retryable None
-      end
-  | _ => hop t a items o
+Definition stop_call_of_Z (z : Z) : stop_call :=
+  if z =? 0 then HttpShutdown else if z =? 1 then HttpClose
+  else if z =? 2 then GrpcGracefulStop else if z =? 3 then GrpcStop else NoStopCall.
+
+(* otlp.go Shutdown: the call made on the server that carries transport t *)
+Definition receiver_stop_call (t : transport) : stop_call :=
+  match t with
+  | Grpc => stop_call_of_Z otlp_Shutdown_grpc_call
+  | _ => stop_call_of_Z otlp_Shutdown_http_call
   end.
+
+Definition documented_lib (c : stop_call) : bool :=
+  match c with HttpShutdown | GrpcGracefulStop => true | _ => false end.
+
+Definition conn_lost (t : transport) (called : bool) : hop_result :=
+  match t with
+  | Grpc => mkHop called (process_error (Some (codes_Unavailable, None))) (Some codes_Unavailable)
+  | _ => mkHop called Retryable None
+  end.
+
+Definition hop_at_lib (lib_drains : stop_call -> bool)
+    (ph : phase) (t : transport) (a : auth) (items : N) (o : outcome) : hop_result :=
+  match ph with
+  | Running => hop t a items o
+  | InFlightAtShutdown =>
+      if lib_drains (receiver_stop_call t) then hop t a items o
+      else conn_lost t (h_called (hop t a items o))
+  | AfterShutdown => conn_lost t false
+  end.
+
+Definition hop_at := hop_at_lib documented_lib.
 
 (* ------------------------------------------------------------------------------------------
    Payload transport: the codec (C08) and the compression (C16) are other properties; here they
